@@ -15,6 +15,51 @@ def fuzz(target, seconds, **kw):
 
 
 PROPS = {
+    "C09": {
+        "rule": "cases: up to 40 records on a 250ms lattice built from 1-4 series templates (ties, points exactly on window "
+                "edges), one range aggregation out of all 13 implemented functions (count/rate/bytes/bytes_rate and sum/avg/min/"
+                "max/stddev/stdvar/quantile/first/last/rate over unwrap with none/bytes()/duration()/duration_seconds()), grouping "
+                "where the grammar allows, range 250ms-1m, offset absent/0/positive, a grid with step <,=,> range (<=40 steps), "
+                "storage returning the exact interval or everything, a capability subset; every case is evaluated on the drawn "
+                "grid, as an instant query at every grid point, and on a second grid sharing a point (evaluations counts each "
+                "engine run); oracle: reference model f(samples in [T-o-r, T-o]) stamped T; non-trivial = some series has >=2 "
+                "points in a window and (a point lies exactly on a window edge or step < range); distinct by case hash",
+        "assumptions": [
+            "unwrap values are always convertible; timestamps are made distinct for first/last_over_time",
+            "the unwrapped label stays part of the series identity like every other label (nothing in the statements removes it)",
+            "float tolerance 1e-9 relative (streaming vs two-pass formulas)",
+            "no distinct stage inside metric queries (its state would depend on how much the storage returns)",
+        ],
+        "quick": [rapid("TestC09", 700)],
+        "thorough": [rapid("TestC09", 3000, shards=16, timeout=2400)],
+    },
+    "C10": {
+        "rule": "cases: records whose label names/values come from a pool of mutual prefixes/concatenations ({a,b,ab,ba} x "
+                "{a,b,ab,bab,...}; half of the ambiguous cases plant two label sets whose name/value strings concatenate "
+                "identically), count_over_time bare or under sum/count by|without, range and instant; every case is evaluated 5 "
+                "times with a fresh engine (map iteration order) - evaluations counts each; invariants: no two series with equal "
+                "label maps, series set and every value equal to the model, per-step totals equal the number of samples in the "
+                "window; non-trivial = a series of >=2 labels aggregating >=2 samples at a step, or two result label sets with "
+                "equal concatenations; distinct by case hash",
+        "assumptions": ["64-bit hash collisions between unrelated label sets are not reachable by search; only structural collisions are"],
+        "quick": [rapid("TestC10", 800)],
+        "thorough": [rapid("TestC10", 3000, shards=16, timeout=2400)],
+    },
+    "C19": {
+        "rule": "cases: generated records with unique timestamps (some lines and label values are arbitrary bytes) x a prefix "
+                "query q (0-4 arbitrary stages incl. parsers, rewriting stages and distinct) x filters f, g (line filters with "
+                "needles cut from real lines or arbitrary bytes and regexes, string label matchers) x label predicates a, b x a "
+                "storage capability subset; each case evaluates 11 related queries (evaluations counts them); metamorphic oracle on "
+                "multisets of (timestamp, line): q|f is a sub-multiset of q, q|f + q|not f = q, q|f|g = q|g|f, q|f|f = q|f, q|=\"\" = q, "
+                "q|(a and b) = (q|a) intersect (q|b), q|(a or b) = (q|a) union (q|b); non-trivial = 0 < |q|f| < |q|; distinct by case hash",
+        "assumptions": [
+            "f, g, a, b are stateless and do not mention __error__ labels; distinct only appears inside q",
+            "q never ends with a bare drop/keep (the following '!= x' would read as a matcher)",
+            "ip() filters are not part of the negation pairs of the statement",
+        ],
+        "quick": [rapid("TestC19", 1500)],
+        "thorough": [rapid("TestC19", 6000, shards=16, timeout=2400)],
+    },
     "C01": {
         "rule": "cases: 0-25 generated records (plain / JSON / logfmt / delimiter-separated lines built from known structure, typed "
                 "label and field pools, ties) x a generated log query (0-3 selector matchers with all four operators, up to 6 stages: "
